@@ -22,6 +22,12 @@ CHANGE = {
     "C16-3B": ("parseString keeps the previous value for an empty quoted string", "an empty property value after a non-empty one"),
     "C18-3A": ("tokenize drops one-character tokens that are followed by a delimiter (fnd > prev + 1)", "a 1-character token not at the end"),
     "C18-3B": ("FileName::name() treats a leading dot of the last component as part of the name (end <= start)", "dot-files"),
+    "C11-4A": ("AbstractArray::at bounds check rewritten as offset > size()-1: never throws on an empty array", "at(0) on a default-constructed / reset / zero-size wrapper"),
+    "C11-4B": ("FixedArray::operator=(std::vector) copies size() bytes instead of size()*sizeof(T)", "vector assignment with sizeof(T) > 1"),
+    "C15-4A": ("BufferReader::read rejects a zero-length read at the end of the data (>= instead of >)", "stream ending in an empty string / vector<string> with empty last element"),
+    "C15-4B": ("vector<T> operator>> appends (reserve + push_back) instead of replacing the target's contents", "reading into a non-empty vector"),
+    "C09-4A": ("Optional operator== compares the payloads whenever both sides agree on has_value(): two empty optionals compare dead storage", "both operands empty"),
+    "C09-4B": ("Any::handle::isSameImpl uses static_cast instead of dynamic_cast: cross-type comparison reads the other payload as T", "two engaged Any of different types compared"),
     "C19-2": ("Observable::removeObserver erases from the found element to the end (find instead of remove)", ">= 2 observers, an earlier one destroyed, then the observable destroyed before a later one"),
     "C20-2": ("writePFM<vec3fa> walks the pixels with a stride of 3 floats instead of 4", "vec3fa images wider than one pixel"),
 }
